@@ -364,13 +364,10 @@ inline bool XMLDateTime::isNormalized() const
 
 inline int XMLDateTime::getRetVal(int c1, int c2)
 {
-    if ((c1 == LESS_THAN    && c2 == GREATER_THAN) ||
-        (c1 == GREATER_THAN && c2 == LESS_THAN)      )
-    {
-        return INDETERMINATE;
-    }
-
-    return ( c1 != INDETERMINATE ) ? c1 : c2;
+    // c1 and c2 are the results of comparing with the value that has no
+    // time zone taken as +14:00 and as -14:00: the order is determinate
+    // only if both agree (they cannot both be EQUAL)
+    return ( c1 == c2 ) ? c1 : INDETERMINATE;
 }
 
 }
